@@ -179,7 +179,7 @@ theorem writes_are_local : FactPreds.writesAreLocal = true := by decide
 /-- No assignment to a package-level variable, to a variable captured by a closure (a separator
 function with memory), or through a parameter (the caller's slices). -/
 theorem no_global_or_captured_writes :
-    (Facts.sharedWrites.filter fun w => w.2.2 == "pkgvar" || w.2.2 == "captured" || w.2.2 == "paramelem") = [] := by
+    (Facts.sharedWrites.filter fun w => !FactPreds.localWrite w) = [] := by
   decide
 
 /-- A method that writes its pointer receiver is only called on the caller's private copy. -/
